@@ -269,6 +269,24 @@ func (w *c5world) gen(g *zsim.Stream, depth int, budget *int) *c5node {
 		w.leaves = append(w.leaves, n)
 	case c5Tee:
 		k := g.Weighted(1, 2, 8, 6) // also the degenerate tees: of nothing (a no-op core) and of one core (that core itself)
+		if depth <= 1 && g.Chance(10) {
+			// a wide tee: 9-12 branches, leaves and hooked leaves - more cores
+			// accepting one entry than a handful
+			k = 9 + g.Draw(4)
+			w.c.R.Probe("tee of 9-12 branches")
+			for i := 0; i < k; i++ {
+				if g.Chance(3) {
+					h := &c5node{id: len(w.nodes), kind: c5Hooks, hookCalls: map[string]int{}}
+					w.nodes = append(w.nodes, h)
+					w.hooks = append(w.hooks, h)
+					h.kids = []*c5node{w.gen(g, 3, budget)}
+					n.kids = append(n.kids, h)
+				} else {
+					n.kids = append(n.kids, w.gen(g, 3, budget))
+				}
+			}
+			break
+		}
 		for i := 0; i < k; i++ {
 			n.kids = append(n.kids, w.gen(g, depth+1, budget))
 		}
